@@ -30,15 +30,37 @@ def _recv_call(n: ast.AST, attr: str) -> Optional[str]:
     return None
 
 
+def _triple_and_epidata_lists(fi: FuncInfo) -> Tuple[str, str]:
+    """Names of the triple list and the epidata list of _interpret_node: the returned (var, triples, epidata), or -
+    when the lists are accumulators handed down the recursion - the receivers of `T.append(x)` / `E.append((x, markers))`."""
+    rets = [n for n in walk_local(fi.node) if isinstance(n, ast.Return) and n.value is not None]
+    if len(rets) == 1 and isinstance(rets[0].value, ast.Tuple) and len(rets[0].value.elts) == 3 \
+            and all(isinstance(e, ast.Name) for e in rets[0].value.elts):
+        return rets[0].value.elts[1].id, rets[0].value.elts[2].id
+    singles: Dict[str, Set[str]] = {}
+    pairs: Dict[str, Set[str]] = {}
+    for n in walk_local(fi.node):
+        r = _recv_call(n, 'append')
+        if r and n.args:
+            a = n.args[0]
+            if isinstance(a, ast.Name):
+                singles.setdefault(a.id, set()).add(r)
+            elif isinstance(a, ast.Tuple) and len(a.elts) == 2 and isinstance(a.elts[0], ast.Name):
+                pairs.setdefault(a.elts[0].id, set()).add(r)
+    cands = {(t, e) for x in singles if x in pairs for t in singles[x] for e in pairs[x] if t != e}
+    if len(cands) != 1:
+        raise AnalysisError(f'_interpret_node: cannot identify the triple list and the epidata list ({sorted(cands)})')
+    t, e = next(iter(cands))
+    if t not in fi.params or e not in fi.params:
+        raise AnalysisError('_interpret_node: the lists are neither returned nor accumulator parameters')
+    return t, e
+
+
 @rule('R1', 'interpretation records epidata in step with the triple list (same order, same operations)')
 def r1(ctx: Ctx) -> RuleReport:
     rep = RuleReport('R1', r1.title, floor=5)
     fi = ctx.repo.func(L, '_interpret_node')
-    rets = [n for n in walk_local(fi.node) if isinstance(n, ast.Return) and n.value is not None]
-    if len(rets) != 1 or not (isinstance(rets[0].value, ast.Tuple) and len(rets[0].value.elts) == 3
-                              and all(isinstance(e, ast.Name) for e in rets[0].value.elts)):
-        raise AnalysisError('_interpret_node: return is not (var, triples, epidata)')
-    Tn, En = rets[0].value.elts[1].id, rets[0].value.elts[2].id
+    Tn, En = _triple_and_epidata_lists(fi)
     # recursive results
     rec: Dict[str, Tuple[int, int]] = {}      # name -> (call id, slot)
     for n in walk_local(fi.node):
@@ -161,7 +183,9 @@ def r1(ctx: Ctx) -> RuleReport:
         recv = expand(ctx, fi, p.func.value, p)
         key = 'penman.layout:_interpret_node: POP is attached to the last epidata entry of the nested node'
         base = recv.value.value if isinstance(recv, ast.Subscript) and isinstance(recv.value, ast.Subscript) else None
-        shape = base is not None and (rec.get(norm(base), (0, 0))[1] == 2 or (
+        shared = En in fi.params and any(isinstance(c, ast.Call) and norm(c.func) == fi.name and any(norm(a) == En for a in c.args)
+                                         for c in walk_local(fi.node))
+        shape = base is not None and (rec.get(norm(base), (0, 0))[1] == 2 or (shared and norm(base) == En) or (
             isinstance(base, ast.Subscript) and isinstance(base.value, ast.Call) and norm(base.value.func) == fi.name
             and try_fold(base.slice) == (True, 2)))
         if not shape:
@@ -186,8 +210,7 @@ def r1b(ctx: Ctx) -> RuleReport:
     cfg = CFG(fi.node)
     IN = cond_facts(cfg)
     pm = ctx.repo.parent_map(fi.node)
-    rets = [n for n in walk_local(fi.node) if isinstance(n, ast.Return) and n.value is not None]
-    Tn = rets[0].value.elts[1].id
+    Tn, _ = _triple_and_epidata_lists(fi)
     found = False
     for n in walk_local(fi.node):
         if _recv_call(n, 'insert') == Tn:
@@ -198,8 +221,16 @@ def r1b(ctx: Ctx) -> RuleReport:
             if is_inst:
                 found = True
                 facts = facts_at(cfg, IN, pm, n)
+                first = ok and pos == 0
+                if not first and isinstance(n.args[0], ast.Name):
+                    # shared accumulator: the position recorded on entry, before this node appended anything
+                    d = single_def(ctx, fi, n.args[0])
+                    loops_ = [x for x in fi.node.body if isinstance(x, ast.For)]
+                    defst = next((x for x in fi.node.body if isinstance(x, ast.Assign) and norm(x.targets[0]) == n.args[0].id), None)
+                    first = isinstance(d, ast.Call) and norm(d) == f'len({Tn})' and defst is not None and loops_ \
+                        and defst.lineno < loops_[0].lineno and Tn in fi.params
                 rep.add('penman.layout:_interpret_node: the synthetic instance triple is listed first', fi.loc(n),
-                        'ok' if ok and pos == 0 else 'undecided', f'inserted at {norm(n.args[0])}')
+                        'ok' if first else 'undecided', f'inserted at {norm(n.args[0])}')
                 rep.add('penman.layout:_interpret_node: it is added exactly when no concept branch was seen', fi.loc(n),
                         'ok' if ('has_concept', False) in facts else 'undecided')
         if _recv_call(n, 'append') == Tn:
@@ -395,7 +426,21 @@ def r36(ctx: Ctx) -> RuleReport:
     spops = [n for n in walk_local(nc.node) if _recv_call(n, 'pop') == 'stack' and not n.args]
     key = 'penman.layout:node_contexts: the context stack is popped once per Pop marker'
     if not spops:
-        rep.undecided(key, nc.loc(), 'no stack.pop()')
+        # equivalent form: count the Pop markers of the triple, then cut that many contexts off the stack
+        counted = None
+        for n in walk_local(nc.node):
+            if isinstance(n, ast.AugAssign) and isinstance(n.op, ast.Add) and isinstance(n.target, ast.Name) and try_fold(n.value) == (True, 1):
+                lp = next((a for a in _ancestors(pm4, n) if isinstance(a, ast.For)), None)
+                if lp is not None and isinstance(lp.target, ast.Name) and 'epidata' in norm(lp.iter) \
+                        and (f'isinstance({lp.target.id}, Pop)', True) in facts_at(cfg4, IN4, pm4, n) \
+                        and not [x for x in ast.walk(lp) if isinstance(x, (ast.Break, ast.Return))]:
+                    counted = n.target.id
+        cut = [n for n in walk_local(nc.node) if isinstance(n, ast.Delete) and counted and any(
+            isinstance(t, ast.Subscript) and norm(t.value) == 'stack' and counted in norm(t.slice) for t in n.targets)]
+        if counted and cut:
+            rep.ok(key, nc.loc(cut[0]), f'{counted} counts the Pop markers of the triple and `{norm(cut[0])}` removes that many contexts')
+        else:
+            rep.undecided(key, nc.loc(), 'no stack.pop()')
     for sp in spops:
         lp = None
         for a in _ancestors(pm4, sp):
@@ -454,6 +499,19 @@ def r36(ctx: Ctx) -> RuleReport:
     if good:
         d = single_def(ctx, nc, spush[0].args[0])
         good = isinstance(d, ast.Call) and norm(d.func) == 'get_pushed_variable'
+    if not good and len(spush) == 1:
+        # equivalent form: the Push markers of the triple are collected in the marker loop and the first one is used
+        a = spush[0].args[0]
+        if isinstance(a, ast.Attribute) and a.attr == 'variable' and isinstance(a.value, ast.Subscript) and try_fold(a.value.slice) == (True, 0) \
+                and isinstance(a.value.value, ast.Name):
+            lst = a.value.value.id
+            for n in walk_local(nc.node):
+                if _recv_call(n, 'append') == lst and n.args and isinstance(n.args[0], ast.Name):
+                    lp = next((x for x in _ancestors(pm4, n) if isinstance(x, ast.For)), None)
+                    if lp is not None and isinstance(lp.target, ast.Name) and lp.target.id == n.args[0].id and 'epidata' in norm(lp.iter) \
+                            and (f'isinstance({lp.target.id}, Push)', True) in facts_at(cfg4, IN4, pm4, n) \
+                            and (norm(a), True) in facts_at(cfg4, IN4, pm4, spush[0]):
+                        good = True
     rep.add('penman.layout:node_contexts: the pushed variable of a triple opens a context', nc.loc(), 'ok' if good else 'undecided')
     # order inside one iteration: context recorded, then push, then pops
     return rep
